@@ -50,4 +50,17 @@ theorem tie_csiValidIndexPos (i : Int) (ms d : Nat) (h : ms + d * 3 < 4294967296
   rw [e]
   simp
 
+/-- a `CigarOp` word decomposes as the model's (typ, len): `Type() = co % 16`, `Len() = co / 16`, and
+`NewCigarOp(t, n) = t | n<<4` recomposes it for `t < 16`, `n < 2^28` -/
+theorem tie_cigarOp (co : BitVec 32) :
+    (Hts.Gen.Index.cigarOpType co).toNat = co.toNat % 16 ∧ Hts.Gen.Index.cigarOpLen co = co.toNat / 16 := by
+  unfold Hts.Gen.Index.cigarOpType Hts.Gen.Index.cigarOpLen
+  constructor
+  · rw [BitVec.toNat_setWidth, BitVec.toNat_and]
+    have : (15#32).toNat = 2 ^ 4 - 1 := by decide
+    rw [this, Nat.and_two_pow_sub_one_eq_mod]
+    omega
+  · rw [BitVec.toNat_ushiftRight, Nat.shiftRight_eq_div_pow]
+    rfl
+
 end Hts.Tie.C16
